@@ -33,7 +33,7 @@ func newUpdogDriver() *updogDriver {
 }
 
 type updogDriver struct {
-	fileConnMtx   sync.RWMutex
+	fileConnMtx   sync.Mutex
 	fileConnCache map[fileCacheKey]*fileConn
 }
 
@@ -89,11 +89,12 @@ func (d *updogDriver) openFile(file string, optValues url.Values) (driver.Conn, 
 		opts = append(opts, updog.WithCache(lruCache))
 	}
 
-	d.fileConnMtx.RLock()
-	conn, ok := d.fileConnCache[key]
-	d.fileConnMtx.RUnlock()
+	// lookup, open and insert have to be one critical section: otherwise two concurrent
+	// first users both open the file, and the second blocks forever on the file lock.
+	d.fileConnMtx.Lock()
+	defer d.fileConnMtx.Unlock()
 
-	if ok {
+	if conn, ok := d.fileConnCache[key]; ok {
 		conn.refs.Add(1)
 		return conn, nil
 	}
@@ -103,15 +104,15 @@ func (d *updogDriver) openFile(file string, optValues url.Values) (driver.Conn, 
 		return nil, fmt.Errorf("couldn't open index file %q: %v", file, err)
 	}
 
-	conn = &fileConn{
-		idx: idx,
+	conn := &fileConn{
+		idx:    idx,
+		driver: d,
+		key:    key,
 	}
 
-	d.fileConnMtx.Lock()
-	d.fileConnCache[key] = conn
-	d.fileConnMtx.Unlock()
-
 	conn.refs.Add(1)
+
+	d.fileConnCache[key] = conn
 
 	return conn, nil
 }
@@ -129,6 +130,9 @@ type fileConn struct {
 	idx *updog.Index
 
 	refs atomic.Int32
+
+	driver *updogDriver
+	key    fileCacheKey
 }
 
 func (c *fileConn) Prepare(query string) (driver.Stmt, error) {
@@ -148,13 +152,26 @@ func (c *fileConn) prepare(query string) (*fileStmt, error) {
 }
 
 func (c *fileConn) Close() error {
-	if c.refs.Add(-1) <= 0 {
-		idx := c.idx
-		c.idx = nil
-		return idx.Close()
+	c.driver.fileConnMtx.Lock()
+	defer c.driver.fileConnMtx.Unlock()
+
+	if c.refs.Add(-1) > 0 {
+		return nil
 	}
 
-	return nil
+	// last reference: the connection must not be handed out again once its index is closed.
+	if c.driver.fileConnCache[c.key] == c {
+		delete(c.driver.fileConnCache, c.key)
+	}
+
+	if c.idx == nil {
+		return nil
+	}
+
+	idx := c.idx
+	c.idx = nil
+
+	return idx.Close()
 }
 
 func (c *fileConn) Begin() (driver.Tx, error) {
